@@ -202,6 +202,22 @@ CHECKS["C09"] = dict(
          "lists) and are not modified between calls other than by randomization.",
     technique="Coq proof over heap model of random states + multi-process differential correspondence (state-term equalities computed in Coq)",
     ref="DESIGN.md §3 C09")
+CHECKS["C16"] = dict(
+    text="Theorems (Coq, closed; Rand/Stacks.v transcribes the API entry points of rand_obj.py / methods.py / constraints.py "
+         "as far as they touch the shared construction state, user code being lists of items with probe points): user code, "
+         "whatever its with-block nesting and wherever it raises, leaves the five stacks as deep as it found them; every API "
+         "call (construction, randomize, randomize_with block, free-standing block) started in any state with any fault point, "
+         "satisfiable or not, restores the depths; after any history of calls with any fault points the shared state is idle "
+         "again (for expr_l: provided __init__ code and callbacks write no bare constraint expression - refuted without). Tie: "
+         "random histories with probes in __init__ (incl. a sub-object's), constraint bodies, with-block bodies and callbacks; an "
+         "exception is injected at a chosen probe, calls are made unsatisfiable; the stacks seen at every probe and the way "
+         "every call ends are compared with the model. Oracles on the real objects: no field keeps a solver variable, no "
+         "temporary rewrite of the constraint tree stays installed, statement counts stay as constructed, and a scripted "
+         "continuation (new class with solve_order, new and re-seeded objects) equals that of a twin process in which the "
+         "failed calls never happened.",
+    note="Covergroup / coverpoint construction and faults inside the library other than SolveFailure are not modelled.",
+    technique="Coq proof over scope-stack model of the API entry points + fault-injection differential correspondence with a pristine-twin oracle",
+    ref="DESIGN.md §3 C16")
 CHECKS["C14"] = dict(
     text="PARTIAL. Theorems (Coq, closed): the range-trimming primitives of bounds inference never remove a value satisfying "
          "the bound; the randomising pattern's slices are exactly the low d bits, within the chosen range these bits (sign bit "
